@@ -576,6 +576,54 @@ func c16(c *core.Ctx) {
 				}
 			}
 			c.Check(ok, key, fn.Pos(), "returns its first parameter exactly on the both-nil path", "the input is not returned as is exactly when both interceptors are nil (an interceptor would be dropped, or a needless wrapper created)")
+			// a registry VIEW (the function returns a new struct holding registry and interceptors): each field is the
+			// matching parameter itself — one decoration level per call, so that nesting gives "outermost first" by
+			// construction (a folded / re-chained view changes the order for one of the two kinds unnoticed)
+			for _, r := range core.Returns(fn) {
+				for _, o := range core.Origins(r.Results[0]) {
+					al, isA := core.Strip(o).(*ssa.Alloc)
+					if !isA {
+						continue
+					}
+					st, isS := al.Type().Underlying().(*types.Pointer).Elem().Underlying().(*types.Struct)
+					if !isS {
+						continue
+					}
+					if nt, isN := al.Type().Underlying().(*types.Pointer).Elem().(*types.Named); !isN || nt.Obj().Pkg() == nil || !strings.HasPrefix(nt.Obj().Pkg().Path(), core.ModulePath) {
+						continue // a copy of a grpc descriptor, not a view type of this module
+					}
+					bad := ""
+					nStores := 0
+					for _, ref := range core.Refs(al) {
+						fa, isFA := ref.(*ssa.FieldAddr)
+						if !isFA {
+							continue
+						}
+						for _, rr := range core.Refs(fa) {
+							sv, isSt := rr.(*ssa.Store)
+							if !isSt {
+								continue
+							}
+							nStores++
+							isPar := core.AllOrigins(sv.Val, func(v ssa.Value) bool {
+								for _, pp := range fn.Params {
+									if core.Strip(v) == ssa.Value(pp) {
+										return true
+									}
+								}
+								return false
+							})
+							if !isPar {
+								bad = st.Field(fa.Field).Name()
+							}
+						}
+					}
+					if nStores == 0 {
+						continue
+					}
+					c.Check(bad == "", core.FuncName(fn)+":view-stores-its-parameters", al.Pos(), "the returned view holds exactly the function's parameters (one decoration level per call)", "field "+bad+" of the returned view is not one of the function's parameters (e.g. an inner view's registry, or interceptors chained here): the nesting order of decorations is then decided by this code and can differ between unary and stream interceptors")
+				}
+			}
 		}
 		c.EndRule()
 	}
